@@ -462,3 +462,75 @@ Section Frames.
     unfold is_enabled in He. rewrite He. reflexivity.
   Qed.
 End Frames.
+
+(* ------------------------------------------------------------------------------------------
+   Deleting an inactive bias (colvarbias::clear after the fix): only links change. *)
+
+Lemma get_fs_out_of_range s o f :
+  (o <? length s) && (f <? length (o_fs (get_obj s o))) = false -> get_fs s o f = fs_default.
+Proof.
+  intros H. unfold get_fs. apply andb_false_iff in H. destruct H as [H|H].
+  - apply Nat.ltb_ge in H. unfold get_obj. rewrite (nth_overflow _ _ H). cbn. destruct f; reflexivity.
+  - apply Nat.ltb_ge in H. apply nth_overflow. exact H.
+Qed.
+
+Lemma get_fs_upd_obj_links s o u o' f :
+  (forall ob, o_fs (u ob) = o_fs ob) -> get_fs (upd_obj s o u) o' f = get_fs s o' f.
+Proof.
+  intros Hu. unfold get_fs, get_obj, upd_obj. rewrite nth_upd_nth.
+  destruct ((o' =? o) && (o <? length s)); [rewrite Hu|]; reflexivity.
+Qed.
+
+Lemma remove_all_children_fs o s o' f : get_fs (remove_all_children o s) o' f = get_fs s o' f.
+Proof.
+  unfold remove_all_children. rewrite get_fs_upd_obj_links by (intros ob; reflexivity).
+  generalize (o_children (get_obj s o)). intros cs. revert s.
+  induction cs as [|c cs IH]; intros s; cbn [fold_left]; [reflexivity|].
+  rewrite IH. apply get_fs_upd_obj_links. intros ob; reflexivity.
+Qed.
+
+Lemma delete_bias_inactive T n o s :
+  is_enabled s o 0 = false -> delete_bias T n o s = Some (remove_all_children o s).
+Proof. intros H. unfold delete_bias. rewrite H. reflexivity. Qed.
+
+(* a successful disable leaves the feature off *)
+Lemma disable_turns_off T n : forall o f s s', disable T n o f s = Some (true, s') -> is_enabled s' o f = false.
+Proof.
+  destruct n as [|n]; intros o f s s' H; cbn [disable] in H; try discriminate.
+  destruct (negb (fs_enabled (get_fs s o f))) eqn:E0.
+  { inversion H; subst. unfold is_enabled. apply negb_true_iff in E0. exact E0. }
+  destruct (1 <? fs_rc (get_fs s o f))%Z; [discriminate|].
+  destruct (loop_all _ (f_self (feat T (cls_of s o) f)) s) as [s1|]; try discriminate.
+  destruct (loop_all _ (fs_alt (get_fs s1 o f)) s1) as [s2|]; try discriminate.
+  destruct (if is_enabled (set_fs s2 o f fs_clear_alt) o 0 then _ else _) as [s4|]; try discriminate.
+  assert (Hoff : is_enabled (set_fs s4 o f fs_turn_off) o f = false).
+  { unfold is_enabled. rewrite get_fs_set_fs. rewrite !Nat.eqb_refl. cbn [andb].
+    destruct ((o <? length s4) && (f <? length (o_fs (get_obj s4 o)))) eqn:E; [reflexivity|].
+    rewrite (get_fs_out_of_range _ _ _ E). reflexivity. }
+  destruct (f =? 0).
+  - destruct (free_with T (disable T n) o _) as [s6|] eqn:E6; try discriminate.
+    inversion H; subst.
+    assert (Hm : never_enables (set_fs s4 o f fs_turn_off) s').
+    { eapply (free_with_rel T never_enables); try exact E6.
+      - intros ? ? ? Hx; exact Hx.
+      - intros a b c H1 H2 o' f' Hx; apply H1; apply H2; exact Hx.
+      - intros; apply set_fs_never_enables; intros x Hx; exact Hx.
+      - intros oo ff ss rr ss' HD. eapply (disable_rel T never_enables); try exact HD.
+        + intros ? ? ? Hx; exact Hx.
+        + intros a b c H1 H2 o' f' Hx; apply H1; apply H2; exact Hx.
+        + intros; apply set_fs_never_enables; intros x Hx; exact Hx.
+        + intros; apply set_fs_never_enables; intros x Hx; exact Hx.
+        + intros; apply set_fs_never_enables; intros x Hx; cbn in Hx; discriminate. }
+    destruct (is_enabled s' o f) eqn:E; [|reflexivity]. apply Hm in E. congruence.
+  - inversion H; subst. exact Hoff.
+Qed.
+
+(* putting a bias to sleep and then deleting it: the deletion changes no feature state of any object
+   (enabled flags, reference counts, alternate_refs), i.e. nothing is released a second time *)
+Lemma delete_sleeping_bias_releases_nothing T n m b s s1 s2 :
+  disable T n b 0 s = Some (true, s1) -> delete_bias T m b s1 = Some s2 ->
+  forall o f, get_fs s2 o f = get_fs s1 o f.
+Proof.
+  intros Hd Hx o f. apply disable_turns_off in Hd.
+  rewrite (delete_bias_inactive _ _ _ _ Hd) in Hx. inversion Hx; subst. apply remove_all_children_fs.
+Qed.
